@@ -50,7 +50,7 @@ def gen(seed: int, tier: str) -> dict[str, Any]:
                                         [6, 1, 2, 1, 2, 1, 1])[0]
             sc["ack_lat"] = rng.choice([None, 0.001, 0.5, 2.999, 3.001])
             sc["resp_lat"] = rng.choice([None, 0.002, 1.0, 5.999, 6.001])
-            sc["dup_gap"] = rng.choice([0.0, 0.0, 0.001, 0.5])
+            sc["dup_gap"] = rng.choice([0.0, 0.0, 0.001, 0.5, 0.5, 1.5])
         devs.append({"script": sc, "lat": rng.choice([0.005, 0.02, 0.2])})
     n_req = rng.choice([1, 2, 4, 18]) if rng.random() < 0.9 else 36
     ops = []
@@ -184,6 +184,22 @@ def run(plan: dict[str, Any]) -> dict[str, Any]:
                 R.violate("C43.expected-response", f"returned-{r['resp_type']}-for-{r['kind']}", "response of another type returned")
             if r["resp_src"] != DEV[r["d"]]:
                 R.violate("C43.expected-response", "response-from-other-device", f"{r['resp_src']:04x}")
+    # a returned response carries the expected number: numbered data is accepted in order from 0, each request takes at
+    # most one frame, and only a failed request leaves open whether it took one
+    for di in sorted({r["d"] for r in results}):
+        oks = 0
+        failed = 0
+        for r in [x for x in results if x["d"] == di and x["kind"] != "connect"]:
+            if r["out"] == "ok":
+                allowed = {(oks + j) & 0xF for j in range(min(failed, 15) + 1)}
+                if r["resp_seq"] not in allowed:
+                    R.violate("C43.expected-response", "response-number-not-expected",
+                              f"dev{di}: request #{oks + failed} returned a frame numbered {r['resp_seq']}; after {oks} answered and "
+                              f"{failed} failed requests the expected number is in {sorted(allowed)}")
+                    break
+                oks += 1
+            else:
+                failed += 1
     # each delivered frame satisfies at most one request
     objs = [id(r["resp"]) for r in results if r.get("out") == "ok"]
     # (object identity is per delivered frame: the same telegram object must not be returned twice)
